@@ -20,4 +20,5 @@ class BuiltinNameSanitizer(NameSanitizer):
 
         first_letter = name[0] if name[0] in string.ascii_letters else "_"
         result = first_letter + self._BAD_CHARS.sub("", name[1:].translate(self._TRANSLATE_MAP))
-        return result + "_" if iskeyword(result) else result
+        # ``__debug__`` is an identifier that can not be assigned
+        return result + "_" if iskeyword(result) or result == "__debug__" else result
